@@ -2,6 +2,7 @@ import Vorbis.Driver.C16
 import Vorbis.Driver.C17
 import Vorbis.Driver.C14
 import Vorbis.Driver.C04
+import Vorbis.Driver.C02
 /-- `vdriver <stream>`: the executable model, one line in / canonical lines out (DESIGN §3.2). -/
 def main (args : List String) : IO UInt32 := do
   match args with
@@ -9,4 +10,5 @@ def main (args : List String) : IO UInt32 := do
   | ["c17"] => Vorbis.Driver.C17.main; return 0
   | ["c14"] => Vorbis.Driver.C14.main; return 0
   | ["c04"] => Vorbis.Driver.C04.main; return 0
+  | ["c02"] => Vorbis.Driver.C02.main; return 0
   | _ => IO.eprintln "usage: vdriver <stream>"; return 2
